@@ -377,6 +377,8 @@ def main_check(prop, tier, seed, repo, replay=None, jobs=None):
     env["PYTHONHASHSEED"] = "0"
     env["PYTHONPATH"] = VERIF
     env.setdefault("MPLBACKEND", "Agg")
+    for k in ("OPENBLAS_NUM_THREADS", "OMP_NUM_THREADS", "MKL_NUM_THREADS"):
+        env.setdefault(k, "1")         # shards are the unit of parallelism; threaded BLAS thrashes on a loaded machine
     env.setdefault("NUMBA_CACHE_DIR", os.path.join(OUT, "numba_cache"))
     env.update(plan.get("env", {}))
     for (k, n, only) in specs:
@@ -444,6 +446,9 @@ def main_check(prop, tier, seed, repo, replay=None, jobs=None):
     summary = "%s tier=%s seed=%d cases=%d distinct_nontrivial=%d monitors=%d evals=%d violations=%d known=%d wall=%.1fs" % (
         prop, tier, seed, tot["evaluations"], len(tot["digests"]), len(tot["monitors"]),
         sum(m["evals"] for m in tot["monitors"].values()), tot["n_violations"], sum(tot["known"].values()), wall)
+    fired = sorted(k for k, m in tot["monitors"].items() if m["violations"])
+    if fired:
+        print("MONITORS-FIRED: " + ",".join("%s(%d)" % (k, tot["monitors"][k]["violations"]) for k in fired))
     if tot["n_violations"]:
         print("RESULT violated " + summary)
         return 1
